@@ -125,7 +125,7 @@ COMB_SELF = plain_desc([mk_param(ARG, 'PK'), mk_param(ARGS, 'VP'), mk_param(KWAR
 def m_get(o, inst):
     """Model/Wrappers.v get; inst: True = access on an instance, False = on the class"""
     k = o[0]
-    if k == 'plain':
+    if k in ('plain', 'fwd'):
         return ('bound', o, 'inst') if inst else o
     if k == 'deco':
         return o[:7] + (m_get(o[7], inst),)
@@ -133,7 +133,7 @@ def m_get(o, inst):
         return o[1]
     if k == 'classm':
         x = o[1]
-        if x[0] == 'plain':
+        if x[0] in ('plain', 'fwd'):
             return ('bound', x, 'cls')
         if x[0] == 'comb':
             return ('bound', x, 'cls')
@@ -144,7 +144,7 @@ def m_get(o, inst):
 def m_get_cls(o):
     """get o (Some cls) cls"""
     k = o[0]
-    if k == 'plain':
+    if k in ('plain', 'fwd'):
         return ('bound', o, 'cls')
     if k == 'deco':
         return o[:7] + (m_get_cls(o[7]),)
@@ -160,6 +160,25 @@ def m_sig(o):
     k = o[0]
     if k == 'plain':
         return ('ok', plain_desc(o[2]))
+    if k == 'fwd':
+        # ('fwd', fid, declared, outer params, n, x): Model/Wrappers.v Fwd
+        _, fid, declared, oparams, n, x = o
+        xs = m_sig(x)
+        if declared:
+            if xs[0] != 'ok':
+                return xs
+            return m_forwards(plain_desc(oparams), xs[1], n, [])
+        if xs[0] == 'crash':
+            return xs
+        r = xs
+        if r[0] == 'ok':
+            r = m_forwards(plain_desc(oparams), xs[1], n, [])
+        if r[0] == 'ok':
+            r = m_merge([r[1]])
+        if r[0] == 'ok':
+            return r
+        FALLBACKS[0] += 1
+        return ('ok', plain_desc(oparams))
     if k == 'static':
         return m_sig(o[1])
     if k == 'classm':
@@ -231,6 +250,8 @@ def input_names(o):
     k = o[0]
     if k == 'plain':
         return {p[0] for p in o[2]}
+    if k == 'fwd':
+        return {p[0] for p in o[3]} | input_names(o[5])
     if k == 'deco':
         return {p[0] for p in o[5]} | input_names(o[7])
     if k == 'comb':
@@ -241,10 +262,26 @@ def input_names(o):
     return input_names(o[1])
 
 
+def fwd_inners(o):
+    """signatures of the functions that forwarding functions inside o hand their arguments to"""
+    k = o[0]
+    if k == 'plain':
+        return []
+    if k == 'fwd':
+        return leaf_sigs(o[5]) + fwd_inners(o[5])
+    if k == 'deco':
+        return fwd_inners(o[7])
+    if k == 'comb':
+        return [d for f in o[1] for d in fwd_inners(f)]
+    return fwd_inners(o[1])
+
+
 def leaf_sigs(o):
     k = o[0]
     if k == 'plain':
         return [plain_desc(o[2])]
+    if k == 'fwd':
+        return [plain_desc(o[3])] + leaf_sigs(o[5])
     if k == 'deco':
         return [plain_desc(o[5])] + leaf_sigs(o[7])
     if k == 'comb':
@@ -314,6 +351,32 @@ def func_src(name, tag, params, raises):
     return 'def %s(%s):\n%s' % (name, params_src(params), body)
 
 
+FWD_OUTER = None
+
+
+def fwd_outer():
+    return [mk_param(ZN, 'PK'), mk_param(ARGS, 'VP'), mk_param(KWARGS, 'VK')]
+
+
+def fwd_src(name, inner_name, declared):
+    """a function whose effective signature only sigtools knows"""
+    deco = '@specifiers.forwards_to_function(%s, 1)\n' % inner_name if declared else ''
+    return '%sdef %s(z, *args, **kwargs):\n    return %s(z, *args, **kwargs)\n' % (deco, name, inner_name)
+
+
+def kwo_convert(params):
+    """modifiers.kwoargs(<last positional-or-keyword parameter>): -> (name, effective params) or None"""
+    pos = [p for p in params if p[1] in ('PO', 'PK')]
+    if len(pos) < 2 or pos[-1][1] != 'PK' or any(p[1] == 'VP' for p in params):
+        return None
+    last = pos[-1]
+    out = [p for p in params if p is not last and p[1] in ('PO', 'PK')]
+    out.append((last[0], 'KO', last[2], last[3], last[4]))
+    out += [p for p in params if p[1] == 'KO']
+    out += [p for p in params if p[1] == 'VK']
+    return last[0], out
+
+
 def ref_expr(depth, base):
     """w1_raw(lambda *a1, **k1: w2_raw(base, *a1, **k1), *args, **kwargs)"""
     def mk(i, a, k):
@@ -345,8 +408,15 @@ def stack_program(spec):
     src = ['from sigtools import wrappers\nimport types\n']
     for i, l in enumerate(layers, 1):
         src.append(wrapper_src(i, l))
-    src.append(func_src('f_raw', 'f', fparams, spec['fraise']))
-    plain = ('plain', 100, fparams, spec['fraise'])
+    if spec.get('fform') in ('auto', 'declared'):
+        src[0] += 'from sigtools import specifiers\n'
+        src.append(func_src('f_inner', 'f', fparams, spec['fraise']))
+        src.append(fwd_src('f_raw', 'f_inner', spec['fform'] == 'declared'))
+        plain = ('fwd', 120, spec['fform'] == 'declared', fwd_outer(), 1,
+                 ('plain', 100, fparams, spec['fraise']))
+    else:
+        src.append(func_src('f_raw', 'f', fparams, spec['fraise']))
+        plain = ('plain', 100, fparams, spec['fraise'])
 
     def deco(x):
         for i in range(d, 0, -1):
@@ -397,9 +467,22 @@ def comb_program(spec):
     mobjs = []
     exprs = []
     refs = []
+    src[0] += 'from sigtools import specifiers, modifiers\n'
     for j, m in enumerate(members):
-        src.append(func_src('g%d' % j, 'g%d' % j, m['params'], m['raises']))
-        plain = ('plain', 100 + j, list(m['params']), m['raises'])
+        form = m.get('form', 'plain')
+        if form in ('auto', 'declared'):
+            src.append(func_src('i%d' % j, 'g%d' % j, m['params'], m['raises']))
+            src.append(fwd_src('g%d' % j, 'i%d' % j, form == 'declared'))
+            plain = ('fwd', 120 + j, form == 'declared', fwd_outer(), 1,
+                     ('plain', 100 + j, list(m['params']), m['raises']))
+        elif form == 'kwo' and kwo_convert(m['params']):
+            nm, eff = kwo_convert(m['params'])
+            src.append(func_src('k%d' % j, 'g%d' % j, m['params'], m['raises']))
+            src.append('g%d = modifiers.kwoargs(%r)(k%d)\n' % (j, name_of(nm), j))
+            plain = ('plain', 100 + j, eff, m['raises'])
+        else:
+            src.append(func_src('g%d' % j, 'g%d' % j, m['params'], m['raises']))
+            plain = ('plain', 100 + j, list(m['params']), m['raises'])
         if m.get('layer'):
             l = m['layer']
             src.append(wrapper_src(j + 1, l))
@@ -590,7 +673,11 @@ def examine(ns, j, label, mobj, calls, prog_kind, want=None, rng=None, nguided=0
         sigs.append(('inspect.signature', isig[1], 'b-inspect'))
     rolecons = True
     if is_comb:
-        rolecons = DRV.ask('rolecons ' + tok_sigs([COMB_SELF] + [m_sig(f)[1] for f in mobj[1] if m_sig(f)[0] == 'ok'])) == 'T'
+        # roles must agree among the members' effective signatures and the functions a
+        # forwarding member hands its arguments to (a consumed parameter is still a role)
+        inner = [d for f in mobj[1] for d in fwd_inners(f)]
+        rolecons = DRV.ask('rolecons ' + tok_sigs(
+            [COMB_SELF] + [m_sig(f)[1] for f in mobj[1] if m_sig(f)[0] == 'ok'] + inner)) == 'T'
     info['rolecons'] = rolecons
     done = set()
     if rng is not None and nguided:
@@ -702,8 +789,17 @@ def gen_stack_spec(rng, U_f, U_owns):
         first = CLS
     elif rng.random() < 0.05:
         first = SELF          # a plain function that happens to name a parameter self
-    return {'fparams': fparams, 'first': first, 'fraise': rng.random() < 0.1, 'layers': layers,
+    spec = {'fparams': fparams, 'first': first, 'fraise': rng.random() < 0.1, 'layers': layers,
             'placement': pl}
+    if pl == 'function' and first is None and fparams and fparams[0][1] in ('PO', 'PK', 'VP') \
+            and rng.random() < 0.4:
+        # the decorated function's effective signature is known to sigtools only
+        spec['fform'] = rng.choice(['auto', 'declared'])
+        # the forwarding function passes its first argument positionally: that inner parameter is
+        # consumed and no layer may also write it as a literal keyword (every call would fail)
+        for l in layers:
+            l['names'] = [k for k in l['names'] if k != fparams[0][0]]
+    return spec
 
 
 def gen_comb_spec(rng, U_m, U_own):
@@ -711,7 +807,10 @@ def gen_comb_spec(rng, U_m, U_own):
     members = []
     for j in range(k):
         ps = distinct_defaults(rng.choice(U_m))
-        m = {'params': ps, 'raises': rng.random() < 0.07}
+        m = {'params': ps, 'raises': rng.random() < 0.07,
+             'form': rng.choice(['plain'] * 5 + ['auto', 'auto', 'declared', 'declared', 'kwo'])}
+        if m['form'] == 'kwo' and not kwo_convert(ps):
+            m['form'] = 'auto'
         if rng.random() < 0.15:
             m['layer'] = gen_layer(rng, U_own, ps, True)
             m['layer']['n'], m['layer']['names'] = 0, []
@@ -746,6 +845,9 @@ def coq_obj(o):
         return '(Deco %s (mkF %d%%nat [%s]) (mkW %d%%N (sig_of_params %s) %s) %s)' % (
             'Simple' if o[1] == 'simple' else 'Declared', n, '; '.join('%d%%N' % kk for kk in names),
             o[4], coq_params(o[5]), beh, coq_obj(o[7]))
+    if k == 'fwd':
+        return '(Fwd %d%%N %s (sig_of_params %s) %d%%nat %s)' % (
+            o[1], 'true' if o[2] else 'false', coq_params(o[3]), o[4], coq_obj(o[5]))
     if k == 'comb':
         return '(Comb [%s])' % '; '.join(coq_obj(f) for f in o[1])
     if k == 'static':
